@@ -197,6 +197,9 @@ Frames(off, n, nonce) == IF n = 0 THEN <<>>
 NumFrames(n) == (n + DataMax - 1) \div DataMax
 
 Seg(i)  == [k |-> "f", i |-> i, a |-> 0, b |-> SealedSize, fl |-> {}]
+\* a frame of THIS session and direction that was sealed with frame counter j before the part of the session that is
+\* modelled here (the adversary's archive, see StreamAt)
+ArchSeg(j) == [k |-> "a", i |-> j, a |-> 0, b |-> SealedSize, fl |-> {}]
 Foreign == [k |-> "x", i |-> 0, a |-> 0, b |-> SealedSize, fl |-> {}]
 SegLen(g) == g.b - g.a
 
@@ -207,8 +210,15 @@ SegLen(g) == g.b - g.a
 \* rn      recvNonce = number of frames opened                            rb      recvBuffer as a range
 \* dl      delivered ranges, adjacent ones merged                         errs    Reads that returned an error
 \* nm      manipulations so far
-EmptyStream == [sent |-> <<>>, total |-> 0, sn |-> 0, wire |-> <<>>, closed |-> FALSE, rn |-> 0,
-                rb |-> [off |-> 0, len |-> 0], dl |-> <<>>, errs |-> 0, nm |-> 0, lossy |-> FALSE, rfaults |-> 0]
+(* POSITION INDEPENDENCE.  The frame counter is a 64-bit integer (nonce[4:12], little endian) incremented by one   *)
+(* per frame: a session that has already carried `base` frames seals its next frames with base, base+1, ... and    *)
+(* expects exactly those.  The map k |-> base + k is INJECTIVE on the whole life of a session (the code panics     *)
+(* rather than wrap at 2^64-1), so under one key no two frames ever share a nonce.  That, and nothing else, is why  *)
+(* a frame recorded earlier in the same session (counter j < base <= recvNonce) can never open again: NonceOrder    *)
+(* below.  StreamAt(base) is the state of such a session; the model's `sent` / `total` / `dl` count from there.      *)
+StreamAt(base) == [sent |-> <<>>, total |-> 0, sn |-> base, base |-> base, wire |-> <<>>, closed |-> FALSE, rn |-> base,
+                   rb |-> [off |-> 0, len |-> 0], dl |-> <<>>, errs |-> 0, nm |-> 0, lossy |-> FALSE, rfaults |-> 0]
+EmptyStream == StreamAt(0)
 
 RECURSIVE WireBytes(_)
 WireBytes(w) == IF w = <<>> THEN 0 ELSE SegLen(Head(w)) + WireBytes(Tail(w))
@@ -255,6 +265,7 @@ CutTail(s, j, c)    == Manip(s, [s.wire EXCEPT ![j].b = s.wire[j].a + c])       
 CutHead(s, j, c)    == Manip(s, [s.wire EXCEPT ![j].a = s.wire[j].a + c])            \* lose the first c bytes
 Recorded(s)         == {i \in 1..Len(s.sent) : s.sent[i].w = SealedSize}               \* frames that were on the wire completely
 Replay(s, j, i)     == Manip(s, InsertAt(s.wire, j, Seg(i)))                         \* re-insert a recorded frame
+Archive(s, j, c)    == Manip(s, InsertAt(s.wire, j, ArchSeg(c)))                     \* re-insert the session's frame with counter c < base
 Inject(s, j)        == Manip(s, InsertAt(s.wire, j, Foreign))                        \* frame of the other direction / an older
                                                                                       \* session / noise (the history names which)
 
@@ -323,7 +334,12 @@ DeliveredBytes(s) == IF s.dl = <<>> THEN 0 ELSE s.dl[1].len
 DeliveredIsPrefixOfSent(s) == s.dl = <<>> \/ (Len(s.dl) = 1 /\ s.dl[1].off = 0 /\ s.dl[1].len <= s.total)
 \* what has been handed out or is buffered is exactly the content of the first rn frames: nothing that
 \* was touched, re-ordered, replayed or foreign ever contributes a byte
-OnlyGenuineFramesOpen(s)   == DeliveredBytes(s) + s.rb.len = SumLen(s.sent, s.rn) /\ s.rn <= Len(s.sent)
+OnlyGenuineFramesOpen(s)   == /\ DeliveredBytes(s) + s.rb.len = SumLen(s.sent, s.rn - s.base)
+                              /\ s.base <= s.rn /\ s.rn - s.base <= Len(s.sent)
+\* the counters only grow and an archived frame's counter lies below where the modelled part of the session began:
+\* it can never be the one the receiver expects (Opens accepts frames of `sent` only, and this is why that is right)
+NonceOrder(s) == /\ s.base <= s.rn /\ s.rn <= s.sn
+                 /\ \A j \in 1..Len(s.wire) : s.wire[j].k = "a" => s.wire[j].i < s.rn
 \* an untouched stream (no manipulation, no fault that lost bytes) is delivered completely and without any error of
 \* the connection's own before the end of the pipe -- also when a write "failed" after all bytes were out
 CleanIsComplete(s) == (s.nm = 0 /\ ~s.lossy) =>
